@@ -356,7 +356,7 @@ def fault_unit(run, cases, rng, per_case=3, tag="faults", max_points=40):
                 jobs.append(dict(job, readfault="%d:4" % j, reset=dict(job["reset"], eintr=j)))
                 jobs.append(dict(job, readfault="%d:5" % j, reset=dict(job["reset"], eio=j)))
         tfk = tf.replace("clean-", "fault-")
-        work.append((c, jobs, tfk, traces.projection(open(tf, errors="replace").readlines())))
+        work.append((c, jobs, tfk, traces.projection_noreads(open(tf, errors="replace").readlines())))
         npoints += len(jobs)
     with cf.ThreadPoolExecutor(NCPU) as ex:
         list(ex.map(lambda x: traces.run_jobs(x[0], x[1], x[2]), work))
@@ -373,7 +373,7 @@ def fault_unit(run, cases, rng, per_case=3, tag="faults", max_points=40):
                 # (scenarios where several buffers read one file are only validated, not compared:
                 #  which buffer gets which bytes legitimately depends on how much each read returns)
                 # EINTR must be transparent: same events as the clean run once the fault line is dropped
-                pr = [l for l in traces.projection(e) if not l.startswith('{"e":"ReadFault"')]
+                pr = [l for l in traces.projection_noreads(e) if not l.startswith('{"e":"ReadFault"')]
                 cl = [l for l in cleanproj]
                 a_ = [l for l in pr if not l.startswith('{"e":"Counts"')]; b_ = [l for l in cl if not l.startswith('{"e":"Counts"')]
                 if a_ != b_:
